@@ -84,4 +84,9 @@ META = {
         "design_ref": "DESIGN.md section 6 C10",
         "note": "Trusted: reply encoder built on go-nl's attribute encoder, reference IE decoder, engine + z3. Instants and durations are concrete samples (the conversions divide by 10^9 / go through float64). Bound: batches of <= 2 (quick) / 3 (thorough) reports.",
     },
+    "C20": {
+        "text": "PARTIAL. Decided: (1) the gtp5g version window - Gtp5g.checkVersion against the simulated kernel with every digit of [v]X.Y.Z symbolic, the oracle being the property's bounds 0.9.5 <= v < 0.10.0 hard-wired (so a changed constant or comparison is a violation); (2) forwarder.NewDriver opens nothing for an invalid gtpu section and otherwise exactly the first interface at port 2152 with its MTU, propagating open failure; (3) ReadConfig returns (nil, error) whenever any stage fails and the unmarshalled values unchanged otherwise. NOT decided: which YAML documents yaml.v2 and govalidator accept (struct tags interpreted through reflection cannot be executed symbolically).",
+        "design_ref": "DESIGN.md section 6 C20 and section 7",
+        "note": "Trusted: go-version NewVersion/Compare models (replayed natively against the real library on every witness), engine-only models for OpenGtp5g / os.ReadFile / yaml.Unmarshal / govalidator.ValidateStruct (parts 2 and 3 have no native replay). The configuration-validation half of the statement is outside the claim.",
+    },
 }
